@@ -153,6 +153,47 @@ def make_seq(cls, n1, n2, twin=False):
     return 'seq_%s_%d_%d%s' % (cls.__name__, n1, n2, '_twin' if twin else ''), cell
 
 
+BC_INDENTS = ['', ' ', '\t', '    ']
+
+
+def make_bc_indent(nlines, i0, new, nfree, twin=False):
+    """Block comments whose lines carry DIFFERENT indentation (a lexeme: the terminal allows any blanks per line); the
+    first line's indent and the assigned indent are fixed per cell, the other lines' indents, the blank after ';' and
+    `nfree` code points of content are symbolic; then `indent = x` (and `value = v`) assignments."""
+    ni = len(BC_INDENTS)
+
+    def cell(i1: int, i2: int, c0: int, c1: int, c2: int, sp: int, then_value: bool) -> None:
+        assert 0 <= i1 < ni and 0 <= i2 < ni and 0 <= sp <= 7
+        assert 0 <= c0 <= MAXCP and 0 <= c1 <= MAXCP and 0 <= c2 <= MAXCP
+        cs = [c0, c1, c2][:nfree]
+        for c in cs:
+            if (c == 10) | (c == 13):
+                return
+        content = [chr(c) for c in cs] + ['b', 'c', 'd'][nfree:]
+        inds = [BC_INDENTS[i0]] + [BC_INDENTS[pick(x, 0, ni - 1)] for x in (i1, i2)[:nlines - 1]]
+        sp = pick(sp, 0, 2 ** nlines - 1)
+        lines = [inds[k] + ';' + (' ' if sp >> k & 1 else '') + content[k] for k in range(nlines)]
+        s = '\n'.join(lines)
+        if not full('BLOCK_COMMENT', s):
+            return
+        tok = models.BlockComment.from_raw_text(s)
+        check(tok.raw_text == s, 'from_raw_text changed the text')
+        v0 = tok.value
+        newi = BC_INDENTS[new]
+        if twin:
+            raise Fail('twin reached the assertion point')
+        tok.indent = newi
+        check(tok.indent == newi, 'indent assignment not read back', R(s), R(newi))
+        check(tok.value == v0, 'indent assignment changed the value', R(s), R(newi), R(tok.value))
+        check(full('BLOCK_COMMENT', tok.raw_text), 'raw text is no longer one BLOCK_COMMENT lexeme after an indent assignment', R(s), R(newi), R(tok.raw_text))
+        check(parse_pair(models.BlockComment, tok.raw_text) == meaning(tok), 'indent/value and raw text disagree after an indent assignment', R(s), R(newi), R(tok.raw_text))
+        if pick(then_value, 0, 1):
+            tok.value = v0
+            check(full('BLOCK_COMMENT', tok.raw_text) and parse_pair(models.BlockComment, tok.raw_text) == (newi, v0), 'value assignment after an indent assignment', R(tok.raw_text))
+
+    return 'bcindent_%d_i%d_n%d_f%d%s' % (nlines, i0, new, nfree, '_twin' if twin else ''), cell
+
+
 CELLS = {}
 
 
@@ -264,6 +305,13 @@ for _cls in (models.EscapedString, models.InlineComment, models.BlockComment, mo
         if _cls in (models.MetaKey, models.Account, models.Currency) and min(_n1, _n2) < 3 and _cls is not models.Currency:
             continue
         _reg(make_seq(_cls, _n1, _n2), {'C12': _t}, 1200, 'seq', '%s: from_raw_text(s1) then 2 assignments (value/raw_text/indent) with lexemes of %d and %d code points' % (_cls.__name__, _n1, _n2), cost=10 ** (_n1 + _n2 - 2))
+for _i0 in range(len(BC_INDENTS)):
+    for _new in range(len(BC_INDENTS)):
+        _reg(make_bc_indent(2, _i0, _new, 1), {'C12': Q}, 900, 'bcindent', 'block comment of 2 lines, first indent %r, second indent symbolic from %r, optional blank after ";", 1 symbolic code point: indent = %r (then value)'
+             % (BC_INDENTS[_i0], BC_INDENTS, BC_INDENTS[_new]), cost=60)
+        _reg(make_bc_indent(3, _i0, _new, 2), {'C12': T}, 2400, 'bcindent', 'block comment of 3 lines, first indent %r, other indents symbolic, 2 symbolic code points: indent = %r (then value)'
+             % (BC_INDENTS[_i0], BC_INDENTS[_new]))
+_reg(make_bc_indent(2, 1, 0, 1, twin=True), {'C12': Q}, 120, 'bcindent', 'vacuity twin', twin=True, cost=1)
 _reg(make_codec(models.BlockComment, 3, twin=True), {'C12': Q}, 120, 'codec', 'vacuity twin', twin=True, cost=1)
 _reg(make_seq(models.EscapedString, 2, 2, twin=True), {'C12': Q}, 120, 'seq', 'vacuity twin', twin=True, cost=1)
 
